@@ -20,7 +20,7 @@ PostS(e) ==
     LET w == IF e.op = "clone" THEN e.o2 ELSE e.o IN
     ObsStr(strs'[w], mode'[w], e.post)
 
-KnownIds == {"C10-KF4", "C10-KF5", "C10-KF6", "C10-KF7"}
+KnownIds == {"C10-KF4", "C10-KF6"}
 
 MinOf(S) == CHOOSE i \in S : \A j \in S : i <= j
 
